@@ -296,10 +296,20 @@ type c13Alt struct {
 	AsClient bool `json:"asclient"`
 	VictimZC bool `json:"victimzc"`
 	ZeroIn   bool `json:"zeroin"` // puppet sends its data with zero checksum
+	// Stray: once established, the puppet sends a stray INIT (1) or INIT-ACK (2) whose
+	// zero-checksum parameter is StrayZC (differs from the negotiated one); such a chunk is
+	// discarded in that state and must not change what the endpoint emits
+	Stray   int `json:"stray,omitempty"`
+	StrayZC int `json:"strayzc,omitempty"`
 }
 
 func genC13Alt(rt *rapid.T) c13Alt {
-	return c13Alt{ZCParam: rapid.IntRange(0, 2).Draw(rt, "zcparam"), AsClient: rapid.Bool().Draw(rt, "asclient"), VictimZC: rapid.Bool().Draw(rt, "victimzc"), ZeroIn: rapid.Bool().Draw(rt, "zeroin")}
+	x := c13Alt{ZCParam: rapid.IntRange(0, 2).Draw(rt, "zcparam"), AsClient: rapid.Bool().Draw(rt, "asclient"), VictimZC: rapid.Bool().Draw(rt, "victimzc"), ZeroIn: rapid.Bool().Draw(rt, "zeroin")}
+	if rapid.Bool().Draw(rt, "stray") {
+		x.Stray = rapid.IntRange(1, 2).Draw(rt, "straykind")
+		x.StrayZC = (x.ZCParam + rapid.IntRange(1, 2).Draw(rt, "strayzc")) % 3
+	}
+	return x
 }
 
 func runC13Alt(t *testing.T, x c13Alt, verbose bool) (c vfCase) {
@@ -326,6 +336,20 @@ func runC13Alt(t *testing.T, x c13Alt, verbose bool) (c vfCase) {
 			return
 		}
 		s.afterEstablished()
+		if x.Stray != 0 {
+			neg := p.cfg.ZCParam
+			p.cfg.ZCParam = x.StrayZC
+			ch := p.initChunk()
+			if x.Stray == 2 {
+				ch = wChunk{Type: wtINITACK, ITag: p.myTag, ARwnd: p.cfg.ARwnd, OS: 0xffff, IS: 0xffff, ITSN: p.cfg.TSN}
+				ch.Params = append([]wTLV{{Type: 7, Val: p.cookie}}, p.extParams()...)
+			}
+			p.cfg.ZCParam = neg
+			p.autoHS = false // whatever the endpoint answers, the puppet does not start a new handshake
+			p.send(ch)
+			s.o.settle(50 * time.Millisecond)
+			c.class(fmt.Sprintf("stray-init-kind-%d", x.Stray))
+		}
 		s.doWrite(0, 1, 300, 53)
 		s.doWrite(0, 1, 3000, 53)
 		s.o.settle(time.Second)
